@@ -102,7 +102,19 @@ func (w *w3World) Gen(rng *rand.Rand, property, tier string) (any, simrt.Sched) 
 			b.CrashPerFile = 40
 			b.Mutations = 64
 		}
+	case "C30":
+		// short recordings: retention is about the directory tree
+		b.Phases = b.Phases[:1]
+		if b.Phases[0].Frames > 30 {
+			b.Phases[0].Frames = 30
+		}
 	case "C29":
+		// spans are compared in absolute time: keep the recorded timeline monotonic
+		for i := range b.Phases {
+			if b.Phases[i].NTPJumpMs < 0 {
+				b.Phases[i].NTPJumpMs = -b.Phases[i].NTPJumpMs
+			}
+		}
 		for i := 0; i < 20; i++ {
 			b.Windows = append(b.Windows, w3Window{StartMs: int64(rng.Intn(12000)) - 1000, DurMs: []int64{0, 1, 40, 500, 1000, 2500, 10000}[rng.Intn(7)]})
 		}
@@ -140,6 +152,7 @@ type w3Written struct {
 }
 
 type w3Harness struct {
+	prop    string
 	b       *w3Body
 	dir     string
 	written []w3Written
@@ -196,6 +209,10 @@ func (h *w3Harness) record() bool {
 	rec.Initialize()
 
 	h.ntpBase = time.Date(2024, 3, 1, 12, 0, 0, 0, time.UTC)
+	if h.prop == "C30" {
+		// retention compares segment instants with the (simulated) wall clock
+		h.ntpBase = time.Now().Truncate(time.Second)
+	}
 	start := time.Now()
 	ntpOff := time.Duration(0)
 	nextID := int64(1)
@@ -275,7 +292,7 @@ func (w *w3World) Run(t *testing.T, sc *simrt.Scenario, cfg simrt.Config) simrt.
 	if b.GOP < 1 {
 		b.GOP = 1
 	}
-	h := &w3Harness{b: &b}
+	h := &w3Harness{b: &b, prop: sc.Property}
 	an := &w3Analysis{h: h, prop: sc.Property}
 	res := simrt.Run(t, cfg, func() {
 		// a fixed name under the worker's private TMPDIR (one run at a time per process)
